@@ -820,8 +820,13 @@ class Executor(object):
         self.narrow(st.test, pt, pf)
         out = []
         self.drain_exc(path, out)
-        out += self.exec_block(st.body, pt)
-        out += self.exec_block(st.orelse, pf) if st.orelse else [('next', None, pf)]
+        ts = z3.simplify(t)
+        # a guard that is statically false/true under the static types (e.g. isinstance(formula, str)
+        # for a formula object) selects its branch; the other one is not executed
+        if not z3.is_false(ts):
+            out += self.exec_block(st.body, pt)
+        if not z3.is_true(ts):
+            out += self.exec_block(st.orelse, pf) if st.orelse else [('next', None, pf)]
         return out
 
     def narrow(self, test, pt, pf):
